@@ -18,31 +18,44 @@ import common as C
 
 
 def udp_sockets_of_this_process() -> dict:
-    """{inode: local port} of the bound UDP sockets this process holds (Linux /proc): what a bridge 'leaves behind' is looked for
-    here, whatever port number it sits on"""
-    inodes = set()
+    """{inode: local port} of the UDP sockets this process holds: what a bridge 'leaves behind' is looked for here, whatever port
+    number it sits on.  Every socket descriptor of the process is asked directly (a duplicate of the descriptor, closed again at
+    once); nothing is read from the machine-wide tables, which other processes change while they are being read."""
+    out = {}
     for fd in os.listdir("/proc/self/fd"):
         try:
             link = os.readlink(f"/proc/self/fd/{fd}")
         except OSError:
             continue
-        if link.startswith("socket:["):
-            inodes.add(int(link[8:-1]))
-    out = {}
-    for f in ("/proc/net/udp", "/proc/net/udp6"):
+        if not link.startswith("socket:["):
+            continue
         try:
-            lines = open(f).read().splitlines()[1:]
+            dup = socket.socket(fileno=os.dup(int(fd)))
         except OSError:
             continue
-        for ln in lines:
-            p = ln.split()
-            try:
-                ino = int(p[9])
-            except (IndexError, ValueError):
-                continue
-            if ino in inodes:
-                out[ino] = int(p[1].split(":")[1], 16)
+        try:
+            if dup.family in (socket.AF_INET, socket.AF_INET6) and dup.type == socket.SOCK_DGRAM:
+                out[int(link[8:-1])] = dup.getsockname()[1]
+        except OSError:
+            pass
+        finally:
+            dup.close()
     return out
+
+
+def _abort_transports_opened_since(loop, fds_before) -> None:
+    """a transport the bridge has forgotten (finding F9) would sit in this process, and in its selector, for the rest of the run:
+    whatever the event loop watches now and did not watch when the case began is aborted when the case is over"""
+    try:
+        for key in list(loop._selector.get_map().values()):
+            if key.fd in fds_before:
+                continue
+            for handle in (key.data if isinstance(key.data, tuple) else (key.data,)):
+                owner = getattr(getattr(handle, "_callback", None), "__self__", None)
+                if owner is not None and hasattr(owner, "abort"):
+                    owner.abort()
+    except Exception:  # noqa - housekeeping only
+        pass
 
 
 def _inode(sock) -> int:
@@ -52,29 +65,38 @@ def _inode(sock) -> int:
 PORT_FORMS = {"list": list, "tuple": tuple, "set": set, "frozenset": frozenset, "keys": lambda ps: dict.fromkeys(ps).keys()}
 
 
-async def _bridge_life(nports: int, acts: List[str]) -> str:
+async def _bridge_life(nports: int, acts: List[str], st: dict, all_acts: List[str], last: bool) -> str:
+    """one segment of a bridge history; `st` carries the bridge object, the ports and the harness's sockets from one segment (one
+    event loop) to the next"""
     from aioswitcher.bridge import SwitcherBridge
     loop = asyncio.get_running_loop()
     loop.set_exception_handler(lambda l, ctx: None)
-    ports = BH.free_udp_ports(nports)
-    for a in acts:
-        if a.startswith("bad:"):        # this configured port can never be bound (outside 0..65535: bind raises OverflowError, not OSError)
-            ports[int(a[4:])] = 70000 + int(a[4:])
-    form = "list"
-    for a in acts:
-        if a.startswith("zero:"):       # this configured port is 0: the system chooses a free one at every start
-            ports[int(a[5:])] = 0
-        if a.startswith("as:"):         # the ports are handed over in another kind of container
-            form = a[3:]
-    count = [0]
+    if "bridge" not in st:
+        ports = BH.free_udp_ports(nports)
+        form = "list"
+        for a in all_acts:
+            if a.startswith("bad:"):        # this configured port can never be bound (outside 0..65535: bind raises OverflowError, not OSError)
+                ports[int(a[4:])] = 70000 + int(a[4:])
+            if a.startswith("zero:"):       # this configured port is 0: the system chooses a free one at every start
+                ports[int(a[5:])] = 0
+            if a.startswith("as:"):         # the ports are handed over in another kind of container
+                form = a[3:]
+        st["count"] = [0]
 
-    def cb(device):
-        count[0] += 1
-    bridge = SwitcherBridge(cb, PORT_FORMS[form](ports))
-    before = set(udp_sockets_of_this_process())     # whatever earlier cases may have left in this process is not this case's
-    other_bridge = [None]       # a second bridge OBJECT configured with the same ports (created when first used)
-    others = {}
-    tx = socket.socket(socket.AF_INET, socket.SOCK_DGRAM)
+        def cb(device, _c=st["count"]):
+            _c[0] += 1
+        st["ports"] = ports
+        st["bridge"] = SwitcherBridge(cb, PORT_FORMS[form](ports))
+        st["before"] = set(udp_sockets_of_this_process())     # whatever earlier cases may have left in this process is not this case's
+        st["other_bridge"] = [None]       # a second bridge OBJECT configured with the same ports (created when first used)
+        st["others"] = {}
+        st["tx"] = socket.socket(socket.AF_INET, socket.SOCK_DGRAM)
+    ports, count, bridge, before = st["ports"], st["count"], st["bridge"], st["before"]
+    other_bridge, others, tx = st["other_bridge"], st["others"], st["tx"]
+    try:
+        watched_before = set(loop._selector.get_map().keys())
+    except Exception:  # noqa
+        watched_before = None
     dgram = BH.sentinel_datagram(0).replace(BH.SENTINEL_NAME.encode(), b"xx-ordinary")
     out = []
 
@@ -156,8 +178,8 @@ async def _bridge_life(nports: int, acts: List[str]) -> str:
                         except OSError:
                             s.close()
                             res = "busy"
-                    elif a.startswith("bad:") or a.startswith("zero:") or a.startswith("as:"):
-                        pass
+                    elif a.startswith("bad:") or a.startswith("zero:") or a.startswith("as:") or a == "newloop":
+                        pass        # "newloop": the rest of the history runs under another event loop (see run_bridge_life)
                     elif a.startswith("rel:"):
                         i = int(a[4:])
                         if i in others:
@@ -177,26 +199,61 @@ async def _bridge_life(nports: int, acts: List[str]) -> str:
                     res += f"+{len(loose)}-sockets-nobody-configured"      # more than the bridge was asked to listen on
                 out.append(f"{res}:{int(bridge.is_running)}:{held}")
         finally:
-            try:
-                await bridge.stop()
-                if other_bridge[0] is not None:
-                    await other_bridge[0].stop()
-            except Exception:
-                pass
-            for s in others.values():
-                s.close()
-            tx.close()
-            await asyncio.sleep(0)
+            if last:
+                try:
+                    await bridge.stop()
+                    if other_bridge[0] is not None:
+                        await other_bridge[0].stop()
+                except Exception:
+                    pass
+                for s in others.values():
+                    s.close()
+                tx.close()
+                await asyncio.sleep(0)
+                if watched_before is not None:
+                    _abort_transports_opened_since(loop, watched_before)
+                    await asyncio.sleep(0)
     return " ".join(out)
 
 
 def run_bridge_life(nports: int, acts: List[str]) -> str:
-    async def bounded():
+    """the history is cut at every "newloop": each piece runs under an event loop of its own (the first under the harness's usual
+    one), the bridge OBJECT stays the same - a bridge that is not running belongs to no loop"""
+    segments, cur = [], []
+    for a in acts:
+        cur.append(a)
+        if a == "newloop":
+            segments.append(cur)
+            cur = []
+    segments.append(cur)
+    st: dict = {}
+    outs = []
+    for k, seg in enumerate(segments):
+        last = k == len(segments) - 1
+        if k == 0:
+            loop = H.loop()
+        else:
+            loop = asyncio.new_event_loop()
+
+        async def bounded(seg=seg, last=last):
+            try:
+                return await asyncio.wait_for(_bridge_life(nports, seg, st, acts, last), 120)
+            except asyncio.TimeoutError:
+                return "HARNESS-TIMEOUT(the bridge did not come back within 120 s)"
         try:
-            return await asyncio.wait_for(_bridge_life(nports, acts), 120)
-        except asyncio.TimeoutError:
-            return "HARNESS-TIMEOUT(the bridge did not come back within 120 s)"
-    return H.loop().run_until_complete(bounded())
+            if k:
+                asyncio.set_event_loop(loop)
+            r = loop.run_until_complete(bounded())
+        finally:
+            if k:
+                loop.run_until_complete(asyncio.sleep(0))
+                loop.close()
+                asyncio.set_event_loop(H.loop())
+        if seg:
+            outs.append(r)
+        if "HARNESS-TIMEOUT" in r:
+            break
+    return " ".join(o for o in outs if o)
 
 
 # ---------------------------------------------------------------------------------------------
@@ -361,6 +418,31 @@ async def _client_life(api_type: str, acts: List[str]) -> str:
                     r = await (api.get_state() if api_type == "type1" else api.stop())
                 elif a == "disc":
                     await api.disconnect()
+                elif a == "ccancel":
+                    # a connect that never completes (the device does not answer the SYN) and is given up by its caller: the task is
+                    # cancelled - wait_for does that - and the client is what it was, able to connect later
+                    import asyncio as _aio
+
+                    async def hang(*args, **kw):
+                        await _aio.Event().wait()
+                    saved_open = (A.open_connection, _aio.open_connection)
+                    A.open_connection = _aio.open_connection = hang
+                    try:
+                        aim(dev.port)
+                        try:
+                            await _aio.wait_for(api.connect(), 0.05)
+                            hung = False
+                        except (_aio.TimeoutError, _aio.CancelledError):
+                            hung = True
+                    finally:
+                        A.open_connection, _aio.open_connection = saved_open
+                    if not hung:            # this client opens its connections some other way: the scenario cannot be staged; undo
+                        await api.disconnect()
+                    raise OSError("connect given up")
+                elif a == "o:copy":
+                    import copy
+                    if other["api"] is None:
+                        other["api"] = copy.copy(api)       # the other client is a COPY of this one, made before either connected
                 elif a.startswith("o:"):
                     o = other_api()
                     try:
